@@ -625,6 +625,10 @@ pub fn run_check(props: &[Property], id: &str, tier: Tier, seed: u64) -> CheckOu
         .map(|d| d.filter_map(|e| e.ok().map(|e| e.path())).filter(|p| p.extension().map(|e| e == "json").unwrap_or(false)).collect())
         .unwrap_or_default();
     files.sort();
+    if std::env::var("VERIF_SKIP_REPLAYS").is_ok() {
+        // sensitivity audits only: judge the generated search alone
+        files.clear();
+    }
     install_quiet_panic_hook();
     for f in files.iter() {
         // run each replay in a child so that a crash cannot kill the checker
